@@ -344,7 +344,7 @@ def make_ctor(spec):
     scale = max(gens.maxabs(ref), 1.0)
 
     def impl():
-        a, b = ref.copy(), n.copy()
+        a, b = shcopy(ref), shcopy(n)
         pl = Plane(a, b) if d is None else Plane(a, b, d)
         return plane_items(pl, [a, b])
 
@@ -386,7 +386,7 @@ def make_pn(spec):
     scale = max(gens.maxabs(ref), 1.0)
 
     def impl():
-        a, b = ref.copy(), n.copy()
+        a, b = shcopy(ref), shcopy(n)
         pl = Plane.from_point_and_normal(a, b) if d is None else Plane.from_point_and_normal(a, b, d)
         return plane_items(pl, [a, b])
 
@@ -423,7 +423,7 @@ def make_points(spec):
     scale = max(gens.maxabs(P), 1e-300)
 
     def impl():
-        a = [P[0].copy(), P[1].copy(), P[2].copy()]
+        a = [shcopy(P[0]), shcopy(P[1]), shcopy(P[2])]
         return plane_items(Plane.from_points(*a), a)
     c = gens.fcross(gens.fsub(P[1], P[0]), gens.fsub(P[2], P[0]))
     collinear = not any(c)
@@ -464,7 +464,7 @@ def make_pv(spec):
     scale = max(gens.maxabs(p1, p2), 1e-300)
 
     def impl():
-        a = [p1.copy(), p2.copy(), v.copy()]
+        a = [shcopy(p1), shcopy(p2), shcopy(v)]
         pl = Plane.from_points_and_vector(*a) if d is None else Plane.from_points_and_vector(*a, direction_decimals=d)
         return plane_items(pl, a)
     c = gens.fcross(gens.fsub(p2, p1), v)
@@ -541,7 +541,7 @@ def make_fit(spec):
         C, w, E = np.zeros((3, 3)), np.zeros(3), np.zeros((3, 3))
 
     def impl():
-        a = P.copy()
+        a = shcopy(P)
         return plane_items(Plane.fit_from_points(a), [a])
 
     def oracle(r):
@@ -655,7 +655,7 @@ def make_tilted(spec):
     scale = max(gens.maxabs(cp, new, ref0), 1e-300)
 
     def impl():
-        a, b = new.copy(), cp.copy()
+        a, b = shcopy(new), shcopy(cp)
         return plane_items(plane.tilted(a, b), [a, b, plane.normal, plane.reference_point])
 
     def oracle(r):
